@@ -2432,14 +2432,16 @@ def wanted(name, only):
 # tuple (id, text) in a problems list - is recorded in observed["open_defects"] instead of failing its scenario, so that the
 # unchanged tree passes while the finding stays visible in every result file.  Set an id to False once /repo is repaired: that is
 # the ONLY edit needed - from then on the same observation fails the scenario, with the property sentence in its detail.
+# every defect below has been repaired in /repo (known_findings.json: F-02c, F-08f, F-11c, F-07n, F-16j, F-16k, F-16l): all switches are off,
+# i.e. the observation FAILS the scenario again should the defect return
 OPEN_DEFECTS = {
-    "F-aud-1": True,
-    "F-aud-2": True,
-    "F-aud-3": True,
-    "F-aud-4": True,
-    "F-aud-5": True,
-    "F-aud-6": True,
-    "F-aud-7": True,
+    "F-aud-1": False,
+    "F-aud-2": False,
+    "F-aud-3": False,
+    "F-aud-4": False,
+    "F-aud-5": False,
+    "F-aud-6": False,
+    "F-aud-7": False,
 }
 if os.environ.get("VERIF_T2_STRICT"):        # developer override: every switch off (e.g. VERIF_T2_STRICT=1 to see what still fails)
     OPEN_DEFECTS = {k: False for k in OPEN_DEFECTS}
